@@ -2,12 +2,12 @@ package main
 
 import (
 	"fmt"
-	"os"
 	"go/ast"
 	"go/constant"
 	"go/token"
 	"go/types"
 	"math"
+	"os"
 	"sort"
 	"strings"
 
@@ -37,45 +37,45 @@ type Obl struct {
 type unsupported struct{ msg string }
 
 type Unit struct {
-	eng       *Engine
-	w         *World
-	fun       *ssa.Function
-	name      string
-	facts     []string
-	obls      []*Obl
-	oblCount  map[string]int
-	heapSorts map[string]string
-	heapElem  map[string]types.Type
-	hver      map[string]*heapVersion
-	frameDone map[string]bool
-	ghostSort map[string]string
-	notes     map[string]bool // uncontracted calls, havocs, ...
-	inlined   map[string]bool
-	usedSpecs map[string]bool
-	top       *Frame
-	watch     []string // terms to print in models
-	watchName []string
-	unsup     string
-	checkFrame bool // emit frame obligations (assigns nothing)
-	entryNow  string
-	usedStd   map[string]bool
-	usedPure  map[string]bool
-	usedContracts map[string]bool
-	implIfaces map[string]types.Type
-	assume    map[string]bool
-	assignable func(ref, what string) string
-	globals   []string
-	arithChecked bool
-	quantOK   bool
-	sliceConstLen map[string]int
-	usedInvs  map[string]bool
-	hparents  map[string][]string
-	qsorts    map[string]string
-	readLog   map[string]string
+	eng             *Engine
+	w               *World
+	fun             *ssa.Function
+	name            string
+	facts           []string
+	obls            []*Obl
+	oblCount        map[string]int
+	heapSorts       map[string]string
+	heapElem        map[string]types.Type
+	hver            map[string]*heapVersion
+	frameDone       map[string]bool
+	ghostSort       map[string]string
+	notes           map[string]bool // uncontracted calls, havocs, ...
+	inlined         map[string]bool
+	usedSpecs       map[string]bool
+	top             *Frame
+	watch           []string // terms to print in models
+	watchName       []string
+	unsup           string
+	checkFrame      bool // emit frame obligations (assigns nothing)
+	entryNow        string
+	usedStd         map[string]bool
+	usedPure        map[string]bool
+	usedContracts   map[string]bool
+	implIfaces      map[string]types.Type
+	assume          map[string]bool
+	assignable      func(ref, what string) string
+	globals         []string
+	arithChecked    bool
+	quantOK         bool
+	sliceConstLen   map[string]int
+	usedInvs        map[string]bool
+	hparents        map[string][]string
+	qsorts          map[string]string
+	readLog         map[string]string
 	insertOnlyAddrs []*Val
-	frameMode bool
-	monitorHook func(fr *Frame, name string, st *State, args []*Val, pos token.Pos)
-	ospecDone map[string]bool
+	frameMode       bool
+	monitorHook     func(fr *Frame, name string, st *State, args []*Val, pos token.Pos)
+	ospecDone       map[string]bool
 }
 
 func (u *Unit) fact(f string) {
@@ -181,39 +181,39 @@ type retInfo struct {
 }
 
 type Frame struct {
-	u        *Unit
-	fn       *ssa.Function
-	vals     map[ssa.Value]*Val
-	params   []*Val
-	binds    []*Val
-	out      map[*ssa.BasicBlock]*State
-	edges    map[[2]int]*State
-	rets     []retInfo
-	depth    int
-	ctx      string
-	stack    []*ssa.Function
-	backEdge map[[2]int]bool
-	loopOrd  map[*ssa.BasicBlock]int
-	loopBody map[*ssa.BasicBlock]map[*ssa.BasicBlock]bool
-	entry    *State
-	contract *Contract
-	defers   []*ssa.Defer
-	names    map[string]*Val       // source variable names -> value (unique definitions)
-	phiNames map[*ssa.BasicBlock]map[string]ssa.Value
-	iters    map[*ssa.BasicBlock][]*iterState // iterators advanced in this loop header
-	panicked []*State                          // states at explicit panics / failed callee (for recover)
-	recoverV *Val
-	parent   *Frame
+	u                                  *Unit
+	fn                                 *ssa.Function
+	vals                               map[ssa.Value]*Val
+	params                             []*Val
+	binds                              []*Val
+	out                                map[*ssa.BasicBlock]*State
+	edges                              map[[2]int]*State
+	rets                               []retInfo
+	depth                              int
+	ctx                                string
+	stack                              []*ssa.Function
+	backEdge                           map[[2]int]bool
+	loopOrd                            map[*ssa.BasicBlock]int
+	loopBody                           map[*ssa.BasicBlock]map[*ssa.BasicBlock]bool
+	entry                              *State
+	contract                           *Contract
+	defers                             []*ssa.Defer
+	names                              map[string]*Val // source variable names -> value (unique definitions)
+	phiNames                           map[*ssa.BasicBlock]map[string]ssa.Value
+	iters                              map[*ssa.BasicBlock][]*iterState // iterators advanced in this loop header
+	panicked                           []*State                         // states at explicit panics / failed callee (for recover)
+	recoverV                           *Val
+	parent                             *Frame
 	recoverKnown, recoverYes, inDefers bool
-	deferConds []string
-	entryPc  string
-	recoverEntry *State
-	mats     map[*Val]*Val
-	ctVars   map[string]*Val
-	nameVals map[string]ssa.Value
-	nameAddrs map[string]ssa.Value
-	lastKeyInfo keyInfo
-	freshBase string
+	deferConds                         []string
+	entryPc                            string
+	recoverEntry                       *State
+	mats                               map[*Val]*Val
+	ctVars                             map[string]*Val
+	nameVals                           map[string]ssa.Value
+	nameAddrs                          map[string]ssa.Value
+	lastKeyInfo                        keyInfo
+	freshBase                          string
 }
 
 func (fr *Frame) val(v ssa.Value) *Val {
